@@ -299,15 +299,52 @@ func (x *mpExec) canon() string {
 	return fmt.Sprintf("L%v C%v | model held%v committed%v resub%v", names, ck, x.held, cm, rs)
 }
 
-func runMp(cfg mpCfg, hist []string, mode string) *execResult {
-	res := &execResult{}
+// mpWorker keeps one Mempool per worker goroutine.  NewMempool and Flush each
+// allocate a 100000-entry map, which dominates the cost of an execution, so an
+// instance is reused when it can be brought back to the empty state without
+// them: Update(everything it offers) — checked afterwards through Reap(-1) and
+// the read-only cache accessor; a new instance is made otherwise, and in any
+// case after 2000 uses (the cache's eviction list only ever grows).
+type mpWorker struct {
+	mp   *mempool.Mempool
+	uses int
+}
+
+func (w *mpWorker) get(cfg mpCfg, x *mpExec) bool {
+	if w.mp != nil && w.uses < 2000 {
+		ok := false
+		core.Try(func() {
+			w.mp.Update(0, w.mp.Reap(-1))
+			ok = len(w.mp.Reap(-1)) == 0 && w.mp.Size() == 0 && len(w.mp.VerifCacheKeys()) == 0 && w.mp.VerifCacheListLen() < 50000
+		})
+		if ok {
+			w.uses++
+			x.mp = w.mp
+			return true
+		}
+	}
 	conf := viper.New()
 	conf.Set("block_size", cfg.BlockSize)
 	conf.Set("mempool_enable_txs_limits", cfg.Limits)
-	x := &mpExec{cfg: cfg, res: res, committed: map[string]bool{}, resub: map[string]bool{}}
+	w.mp, w.uses = nil, 0
 	if !x.guard("NewMempool", func() { x.mp = mempool.NewMempool(conf) }) {
+		return false
+	}
+	w.mp = x.mp
+	return true
+}
+
+func runMp(w *mpWorker, cfg mpCfg, hist []string, mode string) *execResult {
+	res := &execResult{}
+	x := &mpExec{cfg: cfg, res: res, committed: map[string]bool{}, resub: map[string]bool{}}
+	if !w.get(cfg, x) {
 		return res
 	}
+	defer func() {
+		if x.dead {
+			w.mp = nil // a panic may have left the mutex locked
+		}
+	}()
 	if cfg.Limits && x.mp.VerifTxLimit() != 2*cfg.BlockSize {
 		x.find("NewMempool", "limits-not-from-config", "", fmt.Sprintf("block_size=%d gives limit %d", cfg.BlockSize, x.mp.VerifTxLimit()))
 	}
